@@ -200,7 +200,12 @@ func (s *sharedEntryAttributes) toXmlInternal(parent *etree.Element, onlyNewOrUp
 		// check if the element remains to exist
 		if s.shouldDelete() {
 			// if not, add the remove / delete op
-			utils.AddXMLOperation(parent.CreateElement(s.pathElemName), utils.XMLOperationDelete, operationWithNamespace, useOperationRemove)
+			delElem := parent.CreateElement(s.pathElemName)
+			// a deleted node of another module than its parent needs its namespace like a written one
+			if s.parent != nil && s.parent.GetParent() != nil {
+				xmlAddNamespaceConditional(s, s.parent, delElem, honorNamespace)
+			}
+			utils.AddXMLOperation(delElem, utils.XMLOperationDelete, operationWithNamespace, useOperationRemove)
 			// see case nil for an explanation of this, it is basically the same
 			if s.parent.GetSchema() == nil {
 				xmlAddKeyElements(s.parent, parent)
